@@ -12,7 +12,7 @@ pub const DEF: PropDef = PropDef {
     run,
     replay,
     level: "exploration",
-    rule: "enumeration: handshake strings x DH in {25519 (32-byte keys), P256 (65-byte keys)} x transport mode (stateful / stateless) x variant (plain; an unneeded, different remote key supplied up front; a tampered copy of the carrying message delivered first); get_remote_static observed on both roles after build, after every message and after conversion. Expected value derived from the harness's own pattern table and the peer's private key via the reference DH: pre-shared -> the peer's full public key from build on; transmitted -> absent before (if none supplied), the peer's full public key from the successful read of the carrying message on; identical after conversion; absent when never conveyed and not supplied. Non-trivial = at least one role is given the peer's static key by the pattern; distinct by (name, suite, mode, variant)",
+    rule: "enumeration: handshake strings x DH in {25519 (32-byte keys), P256 (65-byte keys)} x transport mode (stateful / stateless) x variant (plain; an unneeded, different remote key supplied up front; a tampered copy of the carrying message delivered first; a first read of every psk-carrying message that fails for a missing PSK, with and without an extra supplied key); get_remote_static observed on both roles after build, after every message and after conversion. Expected value derived from the harness's own pattern table and the peer's private key via the reference DH: pre-shared -> the peer's full public key from build on; transmitted -> absent before (if none supplied), the peer's full public key from the successful read of the carrying message on; identical after conversion; absent when never conveyed and not supplied. Non-trivial = at least one role is given the peer's static key by the pattern; distinct by (name, suite, mode, variant)",
     technique: "differential observation against a reference key schedule (pattern table + independent DH), exhaustive over names x DH x roles x observation points",
     assumptions: &["when the caller supplies a remote key the pattern does not need, nothing is asserted for the window before the transmitted key arrives"],
     panic_is_violation: false,
@@ -26,7 +26,10 @@ pub struct Case {
     /// 0 plain, 1 unneeded different remote key supplied on both sides, 2 tampered carrier first,
     /// 3 = 1 + 2: a rejected carrier must not change what is reported,
     /// 4 = the pre-shared remote key ends in zero bytes and is supplied WITHOUT them (the builder
-    /// zero-pads short keys): the report must still be the full key
+    /// zero-pads short keys): the report must still be the full key,
+    /// 5 = PSKs supplied late: every message with a psk token is first read WITHOUT the PSK (the
+    /// read fails after the static-key field may already have been processed) and the report
+    /// must not change; 6 = 5 with an unneeded different remote key supplied as in 1
     pub variant: u8,
 }
 
@@ -54,15 +57,20 @@ fn oracle(c: &Case, acc: &mut Acc) -> CaseResult {
             }
             ov.rs_value = Some(k);
         }
-        if (c.variant == 1 || c.variant == 3) && !pat.role_needs_remote_static(init) {
+        if (c.variant == 1 || c.variant == 3 || c.variant == 6) && !pat.role_needs_remote_static(init) {
             ov.supply_rs = Some(true);
             ov.rs_value = Some(other_pub.clone());
+        }
+        if c.variant == 5 || c.variant == 6 {
+            // PSKs arrive late (set_psk); the reader of the carrying message gets them only after
+            // a first read has failed for the missing PSK
+            ov.omit_psks = spec.hs.psks.clone();
         }
         build_snow(spec, init, &ov, &Instr::none()).map_err(|x| Fail::setup(format!("build {name}: {}", e(&x))))
     };
     let mut hi = mk(true)?;
     let mut hr = mk(false)?;
-    let supplied_extra = |init: bool| (c.variant == 1 || c.variant == 3) && !pat.role_needs_remote_static(init);
+    let supplied_extra = |init: bool| (c.variant == 1 || c.variant == 3 || c.variant == 6) && !pat.role_needs_remote_static(init);
     // expectation for role `init` after `done` messages have been processed
     let expect = |init: bool, done: usize| -> Option<Option<Vec<u8>>> {
         if pat.role_needs_remote_static(init) {
@@ -104,11 +112,42 @@ fn oracle(c: &Case, acc: &mut Acc) -> CaseResult {
     check(hr.get_remote_static(), false, 0, "after build", acc)?;
     let nm = spec.n_msgs();
     let lay = spec.layouts();
+    let toks_all = pat.with_psks(&spec.hs.psks).ok_or("psk set")?;
     for idx in 0..nm {
         let i_sends = idx % 2 == 0;
         let payload = spec.payload(idx, 4);
         let (w, r) = if i_sends { (&mut hi, &mut hr) } else { (&mut hr, &mut hi) };
+        if c.variant == 5 || c.variant == 6 {
+            for t in &toks_all[idx] {
+                if let crate::refnoise::Tok::Psk(n) = t {
+                    w.set_psk(*n as usize, &spec.psk(*n)).map_err(|x| Fail::setup(format!("{name}: set_psk: {}", e(&x))))?;
+                }
+            }
+        }
         let msg = hs_write(w, &payload, 65535).map_err(|x| Fail::setup(format!("{name}: write {idx}: {}", e(&x))))?;
+        if c.variant == 5 || c.variant == 6 {
+            let needs: Vec<u8> = toks_all[idx].iter().filter_map(|t| if let crate::refnoise::Tok::Psk(n) = t { Some(*n) } else { None }).collect();
+            if !needs.is_empty() {
+                let before = r.get_remote_static().map(|x| x.to_vec());
+                let mut buf = vec![0u8; 65535];
+                let res = r.read_message(&msg, &mut buf);
+                ensure!(res.is_err(), "{name}: message {idx} read without the PSK it needs: {res:?}");
+                let after = r.get_remote_static().map(|x| x.to_vec());
+                ensure!(
+                    before == after,
+                    "{name}: {} after a read of message {idx} that FAILED for a missing PSK: get_remote_static() changed from {} to {} although the message has not been read successfully",
+                    if i_sends { "responder" } else { "initiator" },
+                    before.as_ref().map_or("None".into(), |g| hexs(g)),
+                    after.as_ref().map_or("None".into(), |g| hexs(g))
+                );
+                if pat.remote_static_arrives_at(!i_sends) == Some(idx) {
+                    acc.label("carrier_failed_for_missing_psk_checked");
+                }
+                for n in needs {
+                    r.set_psk(n as usize, &spec.psk(n)).map_err(|x| Fail::setup(format!("{name}: set_psk: {}", e(&x))))?;
+                }
+            }
+        }
         if c.variant == 3 && pat.remote_static_arrives_at(!i_sends) == Some(idx) {
             // the key only becomes available through a SUCCESSFUL read: a rejected copy of the
             // carrying message must leave the reported value (here: the supplied key) unchanged
@@ -199,8 +238,14 @@ pub fn run(ctx: &Ctx) {
             for si in picks {
                 let spec = SessionSpec::simple(hs.clone(), *per_dh[si], mix(ctx.seed, (ni * 12 + si) as u64));
                 for stateless in [false, true] {
-                    for variant in 0..5u8 {
-                        if ctx.tier == Tier::Quick && variant > 0 && !hs.psks.is_empty() && (ni + variant as usize) % 3 != 0 {
+                    for variant in 0..7u8 {
+                        if variant >= 5 && hs.psks.is_empty() {
+                            continue;
+                        }
+                        if ctx.tier == Tier::Quick && variant > 0 && variant < 5 && !hs.psks.is_empty() && (ni + variant as usize) % 3 != 0 {
+                            continue;
+                        }
+                        if ctx.tier == Tier::Quick && variant >= 5 && (ni + si + variant as usize) % 2 != 0 {
                             continue;
                         }
                         let mut sp = spec.clone();
